@@ -20,7 +20,7 @@ def renderRec : R Rec → String
 def hexOrEmpty (s : String) : Option Bytes := if s = "-" then some [] else parseHex s
 
 def step (line : String) : String :=
-  match line.splitOn " " with
+  match (line.splitOn " ").filter (fun t => !t.startsWith "mut:") with
   | ["BD", name, inp, spare] =>
     match Gen.Ble.decodeByName name, hexOrEmpty inp, hexOrEmpty spare with
     | some f, some i, some s => renderRec (f i s)
